@@ -525,8 +525,10 @@ func (self *Fork) resetPartial() error {
 	}
 	if splitFailed && self.Split() {
 		// Chunks loaded from what the failed split had left behind are
-		// not the ones the new run of the split will define.
+		// not the ones the new run of the split will define, and its
+		// definitions must not be merged into the new ones.
 		self.chunks = nil
+		self.stageDefs = new(StageDefs)
 		self.metadatasCache = nil
 	}
 	if state, _ := self.join_metadata.getState(); state == Failed && !self.Split() {
